@@ -35,10 +35,14 @@ def split_cmp(text, op):
 
 
 def paths_of(ctx, fname):
+    from ..csym import cached_paths, flush_paths
     facts = get_cfacts(ctx)
     g = get_ccfg(ctx, facts, fname)
-    return ctx.memo(("sympaths", fname),
-                    lambda: feasible_paths(g, name=fname)), facts, g
+    ps = cached_paths(ctx, facts, fname)
+    flush_paths(ctx)
+    if ps is None:
+        raise AnalysisError(f"{fname}: too many paths")
+    return ps, facts, g
 
 
 def null_test(text, truth, subject):
